@@ -78,7 +78,7 @@ def chex(b: bytes) -> str:
 def clist(items, ty: str | None = None) -> str:
     items = list(items)
     if not items:
-        return f"(@nil {ty})" if ty else "[]"
+        return f"(@nil ({ty}))" if ty else "[]"
     return "[" + "; ".join(items) + "]"
 
 
